@@ -1,10 +1,23 @@
 """C03 — a configured variable limit is never exceeded by any held or reported state."""
+import re
 from concurrent.futures import ThreadPoolExecutor
 import coqgen as g
 import catchgen as cg
 
 HEADER = cg.HEADER + "From Crem Require Import Limits LimitsCorr.\n"
 CHEADER = cg.HEADER + "From Crem Require Import Limits NdArchive Compose ComposeCorr.\n"
+KHEADER = cg.HEADER + """From Coq Require Import Floats Uint63.
+From Crem Require Import Limits Kirkpatrick ComposeKp ComposeKpCorr.
+Definition P := of_bits false.  Definition N := of_bits true.
+Definition t := true.  Definition f := false.
+"""
+KDEC = {"RI": "RevertInvalid", "AD": "AcceptDesirable", "AU": "AcceptUndesirable", "RU": "RevertUndesirable"}
+KDIR = {1: "Minimise", 2: "Maximise"}
+KCODES = {1: "pick out of range", 2: "temperature before the proposal", 3: "validity verdict", 4: "reported change (binary64, A-FLOAT)",
+          5: "change seen vs the pending command", 6: "grid range / sign of the binary64 change", 7: "Float64Unitary of the source value",
+          8: "argument handed to math.Exp", 9: "decision", 10: "decision vs the Metropolis table", 11: "number of draws",
+          12: "active action set after the iteration", 13: "the six totals (grid)", 14: "objective value read by the explorer (binary64, A-FLOAT)",
+          15: "temperature after the iteration", 16: "model state exceeds the limit", 20: "direction not configured", 21: "length of the action set"}
 
 
 def limit(l):
@@ -36,6 +49,35 @@ def crun(c):
     return "(mkCRun %s %s %s)" % (limit(c["limit"]), cg.bits(c["start"]), g.lst([cstep(x) for x in c["steps"]]))
 
 
+def kfl(bits):
+    """IEEE-754 binary64 bit pattern -> Gallina term (sign + low 63 bits as a primitive-int literal)."""
+    bits = int(bits)
+    return "(%s %d%%uint63)" % ("N" if bits >> 63 else "P", bits & ((1 << 63) - 1))
+
+
+def kb(v):
+    return "t" if v else "f"
+
+
+def kbits(bs):
+    return g.lst([kb(x == 1 or x is True) for x in bs])
+
+
+def kstep(s):
+    if s["dec"] not in KDEC:
+        raise KeyError("iteration without exactly one decision event: %r" % s["dec"])
+    return "(mkKS %s %d%%uint63 %s %s %s %s %s %s %s %s %s %s %s %s %s)" % (
+        cg.nat(s["pick"]), int(s["k"]), kb(s["cool"]), kfl(s["T"]), kb(s["valid"]), kfl(s["change"]), kfl(s["arg"]), kfl(s["e"]),
+        kfl(s["u"]), cg.nat(min(int(s["draws"]), 9)), KDEC[s["dec"]], kfl(s["obj"]), g.lst([g.z(v) for v in s["totals"]]),
+        kbits(s["bits"]), kfl(s["Tafter"]))
+
+
+def krun(c):
+    cfg = "(mkKpCfg %s %s %s %s)" % (KDIR[c["dir"]], cg.VK[c["obj"]], kfl(c["T0"]), kfl(c["cf"]))
+    return "(mkKRun %s %s %s %s %s [\n   %s])" % (limit(c["limit"]), cfg, kbits(c["start"]), g.lst([g.z(v) for v in c["start_totals"]]),
+                                                kfl(c["start_obj"]), ";\n   ".join(kstep(x) for x in c["steps"]))
+
+
 def run(ctx):
     ctx.build_harness()
     lines = ctx.run_harness("C03", [ctx.tier], timeout=3000)
@@ -50,6 +92,7 @@ def run(ctx):
     loops = [l for l in lines if l.get("kind") == "case" and l["sub"] == "loop"]
     runs = [l for l in lines if l.get("kind") == "case" and l["sub"] == "run"]
     cruns = [l for l in lines if l.get("kind") == "case" and l["sub"] == "crun"]
+    kruns = [l for l in lines if l.get("kind") == "case" and l["sub"] == "ckp"]
     jobs = []
     for di, (dname, ds) in enumerate(datasets.items()):
         dterm = cg.dataset(ds)
@@ -72,6 +115,13 @@ def run(ctx):
             body += "Definition R := Eval vm_compute in (if wf_dataset d then check_crun d r else Some 9999%nat).\nPrint R.\n"
             body += "Definition M := Eval vm_compute in (match R with None => [] | Some k => [k] end).\nPrint M.\n"
             jobs.append(("cases_C03_crun_%d_%d" % (di, k), body, "correspondence:C03:%s:composed-multi-objective-run:%d" % (dname, k), [c]))
+        dk = [c for c in kruns if c.get("dataset", dname) == dname]
+        for k, c in enumerate(dk):
+            body = KHEADER + "Definition d : dataset :=\n  %s.\n" % dterm
+            body += "Definition r : krun := %s.\n" % krun(c)
+            body += "Definition R := Eval vm_compute in (if wf_dataset d then check_krun d r else Some (4997%nat, 0%nat)).\nPrint R.\n"
+            body += "Definition M := Eval vm_compute in (mismatch_list R).\nPrint M.\n"
+            jobs.append(("cases_C03_ckp_%d_%d" % (di, k), body, "correspondence:C03:%s:composed-single-objective-run:%d" % (dname, k), [c]))
 
     def one(job):
         name, body, label, sh = job
@@ -80,6 +130,23 @@ def run(ctx):
     with ThreadPoolExecutor(max_workers=8) as ex:
         results = list(ex.map(one, jobs))
     for (name, body, label, sh), idx in results:
+        if idx and name.startswith("cases_C03_ckp_"):
+            # which comparison failed at the first disagreeing iteration (printed by the generated file as R)
+            c, kk, code = sh[0], idx[0], None
+            ok, so, _ = ctx.coq_cases(name, body)
+            m = re.search(r"R\s*=\s*Some\s*\(\s*(\d+)(?:%nat)?\s*,\s*(\d+)(?:%nat)?\s*\)", so or "")
+            if m:
+                kk, code = int(m.group(1)), int(m.group(2))
+            why = KCODES.get(code, "comparison %s" % code)
+            where = {4998: "the state after Explorer.Initialise", 4999: "closed-form valuation of the final action set",
+                     4997: "data set not well-formed"}.get(kk, "iteration %d" % kk)
+            ctx.broken.append("%s: first disagreement at %s: %s" % (label, where, why))
+            note = {k2: c[k2] for k2 in ("dataset", "limit", "obj", "dir", "T0", "cf", "start")}
+            note.update({"first_disagreement": where, "comparison": why,
+                         "steps_up_to_it": [{k2: st[k2] for k2 in ("pick", "k", "cool", "dec", "valid", "change", "T", "obj", "totals", "bits")}
+                                            for st in c["steps"][max(0, kk - 1):kk + 1]] if kk < len(c["steps"]) else []})
+            ctx.notes.append({"composed_single_objective_mismatch": note})
+            continue
         if idx:
             for i in idx[:2]:
                 if i < len(sh):
@@ -90,19 +157,36 @@ def run(ctx):
     boundaries = sum(len(r["trace"]) for r in runs)
     distinct = len({(r.get("dataset"), r["family"], r["limit"]["var"], str(b["bits"])) for r in runs for b in r["trace"]}) + \
         len({(c.get("dataset"), str(c["limit"]), str(c["start"]), str(c["picks"])) for c in loops})
+    kiters = sum(len(c["steps"]) for c in kruns)
+    kdistinct = len({(c.get("dataset"), c["limit"]["var"], c["obj"], c["dir"], s["pick"], s["dec"], str(s["bits"]))
+                     for c in kruns for s in c["steps"]})
     ctx.coverage.update({
-        "evaluations": boundaries + len(loops), "distinct_nontrivial": distinct,
+        "evaluations": boundaries + len(loops) + kiters, "distinct_nontrivial": distinct + kdistinct,
         "rule": "on the shipped ValidModel data set and on generated random data sets: (a) the real CoreModel.Randomize under a limit driven by scripted picks from the starting extreme or a mid-range valid "
                 "state, for all six limitable variables and limits at 5/30/60/95/150 % of the attainable range: outcome (ok / attempt-limit "
                 "panic / picks exhausted) and resulting observables vs Limits.rand_loop; (b) full runs of the kirkpatrick and suppapitnarm "
                 "explorers on the catchment model under limits: every boundary state (after the initial randomisation and after every "
                 "iteration) and every archive entry: value == canonical valuation of its action set and <= limit; single-objective traces "
-                "must be chains of Limits.kp_iter steps. distinct_nontrivial = distinct (family, variable, action set) boundary states + "
-                "distinct loop cases",
-        "exhaustive": False, "loop_cases": len(loops), "runs": len(runs), "boundaries": boundaries})
+                "must be chains of Limits.kp_iter steps; (c) composed single-objective runs (ComposeKp.v): the real kirkpatrick.Explorer "
+                "on the real catchment model under a limit (limit on the objective itself and on another variable, objective = several "
+                "of the six variables, both directions, starting temperature = median |change| of the objective), acceptance draws from a "
+                "scripted rand.Source (random / 0 / 1 / at and next to the acceptance probability), action picks scripted; every iteration "
+                "replayed through ComposeKp.ckp_iterate: temperature bits, validity, reported change bits (A-FLOAT checked), math.Exp "
+                "argument bits, draw bits, draw count, decision, objective value bits (A-FLOAT checked), six totals, action set, limit; "
+                "final totals == canon_total of the final set. distinct_nontrivial = distinct (family, variable, action set) boundary "
+                "states + distinct loop cases + distinct (run configuration, pick, decision, action set) composed iterations",
+        "exhaustive": False, "loop_cases": len(loops), "runs": len(runs), "boundaries": boundaries,
+        "composed_single_objective_runs": len(kruns), "composed_single_objective_iterations": kiters})
     if loops:
         c = loops[0]
         ctx.samples = [{k: c[k] for k in ("limit", "start", "picks", "outcome")}]
-    ctx.assumptions = ["A-FLOAT (DESIGN 3a)", "limits generated off the grid",
+    if kruns and kruns[0]["steps"]:
+        c = kruns[0]
+        ctx.samples.append({"composed_single_objective_run": {k2: c[k2] for k2 in ("dataset", "limit", "obj", "dir")},
+                            "first_iteration": {k2: c["steps"][0][k2] for k2 in ("pick", "k", "valid", "dec", "totals")}})
+    ctx.assumptions = ["A-FLOAT (DESIGN 3a); for the composed single-objective runs it is made executable (ComposeKp.grid_float: a grid value g "
+                       "is held as float64(g)/float64(scale); the reported change is (un + ch) - un in binary64) and compared bit for bit "
+                       "(up to the sign of zero) with the change and the objective value the Go model reports, on every replayed iteration",
+                       "limits generated off the grid",
                        "the attempt-limit panic of the randomisation loops (D14b) is an outcome of the model (LPanic), tracked under C19; "
                        "C03 speaks about the states that exist"]
